@@ -117,7 +117,7 @@ struct Runner {
     };
     Router router;
     rt::Rng rng;
-    Sig sigOfDepth[kMaxDepth + 1];
+    Sig sigOfDepth[kMaxDepth + 2];   // index 0: subscriptions at the root key itself; kMaxDepth+1: patterns deeper than any key
     std::vector<std::unique_ptr<SubRec>> subs;
     std::set<Key> stored;               // model of the stored keys (prefix-closed)
     std::set<Key> hasSubject;
@@ -134,7 +134,7 @@ struct Runner {
     std::string curStr;
 
     explicit Runner(uint64_t seed) : rng(seed) {
-        for (int d = 1; d <= kMaxDepth; ++d) sigOfDepth[d] = (Sig) rng.below(kSigs);
+        for (int d = 0; d <= kMaxDepth + 1; ++d) sigOfDepth[d] = (Sig) rng.below(kSigs);
     }
 
     void log(const std::string &t) {
@@ -209,6 +209,7 @@ struct Runner {
         std::set<int> expect;
         std::set<Key> matchedKeys;
         for (auto &k : stored) if (matches(p, k)) matchedKeys.insert(k);
+        if (p.empty()) matchedKeys.insert(Key{});   // the root is stored by construction and is not part of the measured universe
         size_t expectCount = 0;
         for (auto &k : matchedKeys) if (hasSubject.count(k)) ++expectCount;
         for (auto &s : subs) if (s->present && s->valid && !s->muted && matchedKeys.count(s->key)) expect.insert(s->id);
@@ -269,7 +270,7 @@ struct Runner {
     }
     Key randomKey() {
         // biased towards few distinct names so that keys collide and share prefixes
-        int depth = (int) rng.range(1, kMaxDepth);
+        int depth = rng.chance(40) ? 0 : (int) rng.range(1, kMaxDepth);   // now and then the root key itself
         Key k;
         for (int i = 0; i < depth; ++i) k.push_back(kNames[rng.chance(600) ? rng.below(3) : rng.below(kNames.size())]);
         return k;
@@ -323,7 +324,7 @@ struct Runner {
                 ++C.fullShrinks;
                 for (auto &k : m) if (!liveAtOrBelow(k)) return fail("C13", "dead-branch-survived", opName, w + "full-depth wildcard shrink left dead key " + keyStr(k));
             }
-            for (auto it = hasSubject.begin(); it != hasSubject.end();) it = m.count(*it) ? std::next(it) : hasSubject.erase(it);
+            for (auto it = hasSubject.begin(); it != hasSubject.end();) it = (it->empty() || m.count(*it)) ? std::next(it) : hasSubject.erase(it);   // the root is never removed
             stored = m;
         }
         // depth() is one more than the longest stored key
@@ -386,7 +387,8 @@ struct Runner {
             else if (in(structural ? 230 : 330)) {
                 std::vector<PLevel> p;
                 unsigned q = (unsigned) rng.below(100);
-                if (q < 30 && !live.empty()) p = concretePattern(subs[live[rng.below(live.size())]]->key);
+                if (q < 4) p = {};   // the root key
+                else if (q < 30 && !live.empty()) p = concretePattern(subs[live[rng.below(live.size())]]->key);
                 else if (q < 50) p = allPattern((int) rng.range(1, kMaxDepth));
                 else p = randomPattern((int) rng.range(1, kMaxDepth));
                 notify(p, "C06");
